@@ -52,6 +52,7 @@ def p_client(t):
 
 def p_e2e(tok):
     """latency token: 0 absent/null, 1 present, p:<e>,<e>,… present with that percentiles shape (n = null element)"""
+    tok = tok.split("/j:")[0]
     if tok.startswith("p:"):
         return True, [None if e == "n" else int(e) for e in tok[2:].split(",") if e]
     return tok == "1", []
@@ -386,8 +387,9 @@ def topic_channels_fail(req, w, prods, body):
     for e in entries:
         f = e.split("/")
         name = "" if f[0] == "-" else f[0]
-        got.setdefault(name, []).append([int(x) for x in f[2].split(",")] + [f[3] == "1"])
+        got.setdefault(name, []).append([int(x) for x in f[2].split(",")] + [f[3] == "1"] + [int(f[5]) if len(f) > 5 and f[5].isdigit() else None])
     exp = {}
+    reports = {}
     for p in prods:
         for t in stats_of(w, p, req["a"]) or []:
             if t["name"] != req["a"]:
@@ -395,6 +397,7 @@ def topic_channels_fail(req, w, prods, body):
             for c in t["channels"]:
                 if c is None:
                     continue
+                reports[c["name"]] = reports.get(c["name"], 0) + 1
                 tot = exp.setdefault(c["name"], dict((k, 0) for k, _ in CH_FIELDS))
                 tot["paused"] = tot.get("paused", False) or c["paused"]
                 for k, _ in CH_FIELDS:
@@ -413,6 +416,10 @@ def topic_channels_fail(req, w, prods, body):
                 n, dict((k, cs[dict(CH_FIELDS)[k]]) for k in bad), dict((k, tot[k]) for k in bad))
         if cs[13] != tot["paused"]:
             return "topic view, channel %r: paused=%s but the nodes report %s" % (n, cs[13], tot["paused"])
+        # the merged entry is the first reporter's own object: its node list holds the OTHER reports, nothing else
+        if cs[14] is not None and cs[14] != reports[n] - 1:
+            return "topic view, channel %r: %d node entries merged into the first report; %d node report(s) exist" % (
+                n, cs[14], reports[n])
     return None
 
 
@@ -612,6 +619,8 @@ def run(ctx):
                         key = "getv1:" + o.split()[2]
                     if o.startswith("lat "):
                         key = "crash:null-percentile" if " panic decode " in " " + i + " " and "nil map" in i else "latency:" + i[:60]
+                    if "/j:" in o and not o.startswith("lat "):
+                        key = "view:upstream-nodes-member"
                     if key == "view:channel:500":
                         key = "view:channel-not-found"
                     elif key == "view:topic:500" and " 0 " in o:
